@@ -338,6 +338,7 @@ async def real_sequence(loop: vloop.VirtualLoop, ctx, trial: int) -> None:
         sim.new()
     air = airmod.Air(loop)
     mute: set[int] = set()  # log indexes whose request goes unanswered
+    other_reader: set[int] = set()  # log indexes at which another reader's reply is heard instead of ours (once)
     answered = [0]
     on_answer: list[Any] = []
     history: list[str] = []
@@ -348,6 +349,14 @@ async def real_sequence(loop: vloop.VirtualLoop, ctx, trial: int) -> None:
         if frame[:2] == "RQ" and p[-3] == "0418" and p[-5] == CTL:
             k = int(p[-1][4:6], 16)
             if k in mute:
+                return
+            if k in other_reader and sim.entries:
+                # another reader of the same log (an RFG100) is answered just now - for another entry - and our
+                # own reply is lost this once: our request is simply asked again
+                other_reader.discard(k)
+                j = (k + 2) % len(sim.entries)
+                air.inject(f"RP --- {CTL} 30:111111 --:------ 0418 022 {entry_payload(sim.entries[j], j)}", delay=0.03)
+                ctx.count("sequence.foreign_replies")
                 return
             body = entry_payload(sim.entries[k], k) if k < len(sim.entries) else NULL
             air.inject(f"RP --- {CTL} {p[-6]} --:------ 0418 022 {body}", delay=0.03)
@@ -403,6 +412,9 @@ async def real_sequence(loop: vloop.VirtualLoop, ctx, trial: int) -> None:
                 changed = [False]
                 if kind == "get-fail" and span >= 1:
                     mute.add(rng.randrange(span))
+                other_reader.clear()
+                if kind == "get" and len(sim.entries) >= 3 and rng.random() < 0.4:
+                    other_reader.add(rng.randrange(min(span, len(sim.entries))))
                 if kind == "announce-during-get":
                     after_n = answered[0] + rng.randint(1, max(1, span - 1))
 
